@@ -70,7 +70,11 @@ def revolute_case(j, e, alen, rng, sigma=1.0):
     # exp(theta S) is the exact screw; scalar and vector theta, both units
     for site, fn in {"Twist3.exp(theta)": lambda: S.exp(th).A, "Twist3.exp(theta,deg)": lambda: S.exp(math.degrees(th), units="deg").A,
                      "(S*theta).exp()": lambda: (S * th).exp().A, "(theta*S).exp()": lambda: (th * S).exp().A,
-                     "trexp(se3*theta)": lambda: b.trexp(S.se3() * th), "(S*theta).SE3()": lambda: (S * th).SE3().A}.items():
+                     "trexp(se3*theta)": lambda: b.trexp(S.se3() * th), "(S*theta).SE3()": lambda: (S * th).SE3().A,
+                     # the revolute twist held AFTER a prismatic one (and before one) in an object holding several values
+                     "Twist3([prismatic,S]).exp(theta)[1]": lambda: Twist3([Twist3.Prismatic([0, 0, 1]), S]).exp(th)[1].A,
+                     "Twist3([S,prismatic]).exp(theta)[0]": lambda: Twist3([S, Twist3.Prismatic([0, 1, 0])]).exp(th)[0].A,
+                     "Twist3([prismatic,S*theta]).exp()[1]": lambda: Twist3([Twist3.Prismatic([1, 0, 0]), S * th]).exp()[1].A}.items():
         cid = (site, feat)
         r = guard(j, site, feat, detail, cid, fn)
         if r is not None:
